@@ -203,4 +203,33 @@ theorem runsBounded_spec {n : Nat} {c : Fin n → Fin n → ℤ} {s t : Fin n} (
               hquiet.dl
             exact (boundedLoop_inv hst hN b fuel _ d.maxFlow d.maxFlow dl fl false hd0 hloop).2 rfl
 
+/-- the driver's `rerunHistory` (bound values chosen as the harness chooses them) is one of these histories -/
+theorem rerunHistory_runsBounded (fuel : Nat) (k : Nat) : ∀ (i : Nat) (d : Dinic) (b : Int) (r : Dinic × Int),
+    rerunHistory fuel k i d b = some r → ∃ bs, bs.length = k ∧ runsBounded fuel bs d = some r.1 := by
+  induction k with
+  | zero =>
+    intro i d b r h
+    simp only [rerunHistory, Option.some.injEq] at h
+    subst h
+    exact ⟨[], rfl, rfl⟩
+  | succ k ih =>
+    intro i d b r h
+    simp only [rerunHistory] at h
+    cases hr : runBoundedAgain d fuel (if i % 2 = 0 then b else I32MAX) with
+    | none => simp [hr] at h
+    | some r1 =>
+      obtain ⟨d1, b1⟩ := r1
+      simp [hr] at h
+      obtain ⟨bs, hl, hbs⟩ := ih (i + 1) d1 b1 r h
+      refine ⟨(if i % 2 = 0 then b else I32MAX) :: bs, by simp [hl], ?_⟩
+      simp only [runsBounded, hr]
+      exact hbs
+
+/-- on a fresh object (flow counter 0) `runBounded` - the function C03/C04 and the driver's first bounded run use -
+    is `runBoundedAgain` -/
+theorem runBounded_eq_again (d : Dinic) (fuel : Nat) (bound : Int) (h0 : d.maxFlow = 0) :
+    runBounded d fuel bound = runBoundedAgain d fuel bound := by
+  unfold runBounded runBoundedAgain
+  rw [h0]
+
 end Tbx.InertialFlow
